@@ -27,7 +27,7 @@ from elementpath.helpers import numeric_equal, numeric_not_equal, \
     node_position, get_double
 from elementpath.namespaces import XSD_ERROR, get_namespace, get_expanded_name
 from elementpath.datatypes import UntypedAtomic, QName, AnyURI, \
-    Duration, Integer, DoubleProxy10
+    Duration, Integer, DoubleProxy10, NumericProxy
 from elementpath.xpath_nodes import ElementNode, DocumentNode, XPathNode, AttributeNode
 from elementpath.sequences import xlist
 from elementpath.sequence_types import is_instance
@@ -672,8 +672,10 @@ def select__range_expression(self: XPathToken, context: ta.ContextType = None) -
 # Numerical operators
 @method(infix('idiv', bp=45))
 def evaluate__idiv_operator(self: XPathToken, context: ta.ContextType = None) -> int:
-    op1, op2 = self.get_operands(context)
+    op1, op2 = self.get_operands(context, cls=NumericProxy)
     if op1 is None or op2 is None:
+        if isinstance(context, XPathSchemaContext):
+            return 1  # static analysis: the path selects nothing from the schema node, that proves nothing
         raise self.error('XPST0005')
 
     try:
